@@ -2,6 +2,7 @@ package absint
 
 import (
 	"fmt"
+	"os"
 	"go/ast"
 	"go/token"
 	"go/types"
@@ -256,10 +257,24 @@ func (in *Interp) equal(l, r Value, at ast.Node) Node {
 			return in.D.M.Not(x.NonNil)
 		}
 		if y, ok := r.(*ErrVal); ok {
+			if os.Getenv("LW_ERRDEBUG") != "" {
+				fmt.Fprintf(os.Stderr, "errcmp at %s: x{tag=%q cause=%q tagG=%d} y{tag=%q cause=%q tagG=%d}\n", in.pos(at), x.Tag, x.Cause, len(x.TagG), y.Tag, y.Cause, len(y.TagG))
+				for t, n := range x.TagG {
+					fmt.Fprintf(os.Stderr, "   x.TagG[%s]: deadUnderLive=%v alwaysUnderLive=%v nonNilAlways=%v\n", t, in.D.M.And(in.live, n) == False, in.D.M.And(in.live, in.D.M.Not(n)) == False, in.D.M.And(in.live, in.D.M.Not(x.NonNil)) == False)
+				}
+			}
 			bothNil := in.D.M.And(in.D.M.Not(x.NonNil), in.D.M.Not(y.NonNil))
 			switch {
 			case x.Tag == "?" || y.Tag == "?":
-				in.fail(at, "comparison of errors whose identity depends on the path")
+				// equal when both nil, or both are the same sentinel
+				same := False
+				cy := errTagConds(y)
+				for t, cx := range errTagConds(x) {
+					if c2, ok := cy[t]; ok {
+						same = in.D.M.Or(same, in.D.M.And(cx, c2))
+					}
+				}
+				return in.D.M.Or(bothNil, same)
 			case x.Tag != "" && x.Tag == y.Tag:
 				return in.D.M.Or(bothNil, in.D.M.And(x.NonNil, y.NonNil)) // the same sentinel, or both nil
 			case x.Tag != "" && y.Tag != "":
